@@ -143,7 +143,7 @@ def kernel_h_profile_d(x, y, y_hat, integral_value, integral_method, alpha):
     return y_hat == y_hat_spec(x, y, integral_value, integral_method, alpha)
 
 
-@ensures(KERNEL)
+@ensures(KERNEL, export=False)
 def kernel_profile(x, y, integral_value, integral_method, dx, alpha, s, result):
     """C03: every sample is displaced by yhat times the documented profile (one yhat per window)"""
     return (is_ndarray(result) and len(result) == len(y)
@@ -154,7 +154,7 @@ def kernel_profile(x, y, integral_value, integral_method, dx, alpha, s, result):
 @ensures(KERNEL)
 def kernel_ends_fixed(x, y, integral_value, integral_method, dx, alpha, s, result):
     """C03: with at least one interior sample the two end samples do not move"""
-    return implies(len(x) >= 3, result[0] == y[0] and result[len(x) - 1] == y[len(x) - 1])
+    return is_ndarray(result) and len(result) == len(y) and implies(len(x) >= 3, result[0] == y[0] and result[len(x) - 1] == y[len(x) - 1])
 
 
 @ensures(KERNEL)
@@ -163,7 +163,94 @@ def kernel_integral(x, y, integral_value, integral_method, dx, alpha, s, result)
     return eq(total(x, result, integral_method), integral_value)
 
 
-@ensures(KERNEL)
+@ensures(KERNEL, export=False)
 def kernel_idempotent(x, y, integral_value, integral_method, dx, alpha, s, result):
     """C03: a window that already has the requested integral is returned unchanged"""
     return implies(total(x, y, integral_method) == integral_value, forall(range(len(y)), lambda i: result[i] == y[i]))
+
+
+# ========================================================================== window loop
+
+contract(WINDOWS, params=dict(x=Seq(Real, kind='arraylike'), y=Seq(Real, kind='arraylike'), dx=Real,
+                              integral_values=Seq(Real, kind='arraylike'), fixed_points_indices_in_x=Seq(Int, kind='arraylike'),
+                              integral_method=Str, alpha=Real, s=NoneT),
+         returns=Seq(Real), lemmas=['SUM_CONG'])
+
+
+def windows_ok(x, f):
+    """fixed indices inside x, each window with at least one interior sample"""
+    return (len(f) >= 1 and forall(range(len(f)), lambda j: 0 <= f[j] and f[j] < len(x))
+            and forall(range(len(f) - 1), lambda j: f[j + 1] - f[j] >= 2))
+
+
+@requires(WINDOWS)
+def windows_pre(x, y, dx, integral_values, fixed_points_indices_in_x, integral_method, alpha, s):
+    return (len(x) >= 2 and len(y) == len(x) and strictly_increasing(x) and alpha > 0
+            and windows_ok(x, fixed_points_indices_in_x) and strictly_increasing(fixed_points_indices_in_x)
+            and len(integral_values) == len(fixed_points_indices_in_x) - 1)
+
+
+@raises(WINDOWS, 'ValueError')
+def windows_unknown_rule(x, y, dx, integral_values, fixed_points_indices_in_x, integral_method, alpha, s):
+    """an unknown rule is rejected as soon as there is a window to stretch"""
+    return integral_method != 'trapezoid' and integral_method != 'rectangle' and len(fixed_points_indices_in_x) >= 2
+
+
+def window_integral(x, r, f, j, method):
+    return sum_range(f[j], f[j + 1], lambda i: rule_term(x, r, i, method))
+
+
+@invariant(WINDOWS, loop=1)
+def windows_inv_static(x, y, integral_values, fixed_points_indices_in_x, integral_method, alpha, _i, x__pre, y__pre):
+    return (len(x__pre) >= 2 and len(y__pre) == len(x__pre) and strictly_increasing(x__pre) and alpha > 0
+            and windows_ok(x__pre, fixed_points_indices_in_x) and strictly_increasing(fixed_points_indices_in_x)
+            and len(integral_values) == len(fixed_points_indices_in_x) - 1
+            and (integral_method == 'trapezoid' or integral_method == 'rectangle' or _i == 0)
+            and is_ndarray(y) and len(y) == len(x) and len(x) == len(x__pre)
+            and forall(range(len(x)), lambda p: x[p] == x__pre[p])
+            and 0 <= _i and _i <= len(fixed_points_indices_in_x) - 1)
+
+
+@invariant(WINDOWS, loop=1)
+def windows_inv_done(x, y, integral_values, fixed_points_indices_in_x, integral_method, _i):
+    """finished windows have their target integral"""
+    return forall(range(_i), lambda j: window_integral(x, y, fixed_points_indices_in_x, j, integral_method) == integral_values[j])
+
+
+@invariant(WINDOWS, loop=1)
+def windows_inv_untouched(y, fixed_points_indices_in_x, _i, y__pre):
+    """everything before the first and from the current fixed point on is still the input"""
+    return forall(range(len(y)), lambda p: implies(p < fixed_points_indices_in_x[0] or p >= fixed_points_indices_in_x[_i],
+                                                   y[p] == y__pre[p]))
+
+
+@invariant(WINDOWS, loop=1)
+def windows_inv_fixed(y, fixed_points_indices_in_x, _i, y__pre):
+    """no fixed point has moved"""
+    return forall(range(_i + 1), lambda j: y[fixed_points_indices_in_x[j]] == y__pre[fixed_points_indices_in_x[j]])
+
+
+@hint(WINDOWS, loop=1, when='end')
+def windows_h_shift(x, y, start, end, integral_method, last_result):
+    """the window's integral over the whole array is the integral the kernel established on the slice (lemma SUM_SHIFT)"""
+    return SUM_SHIFT(seq_of(len(x) - 1, lambda k: rule_term(x, y, k, integral_method)),
+                     seq_of(len(last_result) - 1, lambda k: rule_term(x[start:end], last_result, k, integral_method)),
+                     start, 0, end - 1 - start)
+
+
+@ensures(WINDOWS)
+def windows_integrals(x, y, dx, integral_values, fixed_points_indices_in_x, integral_method, alpha, s, result):
+    """C01: the integral between each pair of consecutive fixed points equals its target"""
+    return (is_ndarray(result) and len(result) == len(y)
+            and forall(range(len(integral_values)), lambda j:
+                       window_integral(x, result, fixed_points_indices_in_x, j, integral_method) == integral_values[j]))
+
+
+@ensures(WINDOWS)
+def windows_frame(x, y, dx, integral_values, fixed_points_indices_in_x, integral_method, alpha, s, result):
+    """C03: samples outside the span of the fixed points and the fixed points themselves are unchanged"""
+    return (forall(range(len(y)), lambda p:
+                   implies(p < fixed_points_indices_in_x[0] or p > fixed_points_indices_in_x[len(fixed_points_indices_in_x) - 1],
+                           result[p] == y[p]))
+            and forall(range(len(fixed_points_indices_in_x)), lambda j:
+                       result[fixed_points_indices_in_x[j]] == y[fixed_points_indices_in_x[j]]))
